@@ -359,6 +359,20 @@ def external_cases_graph(rng, k):
 
         yield "numpy.unravel_index (one flat index)", unravel_case
 
+        uvals = _floats(rng, int(rng.integers(0, 6)), (1.0, 2.0, -1.0, NAN, 0.5))
+
+        def pd_unique_case(vals=uvals):
+            import pandas as pd
+
+            from ..contracts.getexpected import m_pd_unique
+
+            ex, st = _Ex(), State()
+            out = m_pd_unique(ex, st, [cseq(vals, V.Val, st)], {}, _node())
+            link(out, pd.unique(np.array(vals, dtype="float64")), V.Val, st)
+            return decide(ex, st), {"array": [repr(v) for v in vals]}
+
+        yield "pandas.unique (first appearance)", pd_unique_case
+
         npa, kpa = int(rng.integers(0, 9)), int(rng.integers(1, 5))
 
         def partition_case(npa=npa, kpa=kpa):
